@@ -5,11 +5,13 @@ import (
 	"fmt"
 	"math/big"
 	"math/rand"
+	"reflect"
 	"regexp"
 	"strconv"
 	"strings"
 	"unicode"
 	"unicode/utf8"
+	"unsafe"
 
 	"github.com/SAP/go-dblib/asetypes"
 )
@@ -51,6 +53,26 @@ func decInstall(d *asetypes.Decimal, i *big.Int) {
 	if i.Sign() < 0 {
 		d.Negate()
 	}
+}
+
+// decInstallPure / decIntPure: the same for the ORACLES' expected values — straight into / out of the field,
+// without any method of the type under test (an expectation built with SetBytes or read with Int() follows
+// whatever those methods do)
+func decInstallPure(d *asetypes.Decimal, i *big.Int) {
+	f := reflect.ValueOf(d).Elem().FieldByName("i")
+	*(**big.Int)(unsafe.Pointer(f.UnsafeAddr())) = new(big.Int).Set(i)
+}
+
+func decIntPure(d *asetypes.Decimal) *big.Int {
+	if d == nil {
+		return nil
+	}
+	f := reflect.ValueOf(d).Elem().FieldByName("i")
+	i := *(**big.Int)(unsafe.Pointer(f.UnsafeAddr()))
+	if i == nil {
+		return nil
+	}
+	return new(big.Int).Set(i)
 }
 
 func decString(d *asetypes.Decimal) (out string, panicked bool) {
